@@ -7,6 +7,17 @@ import Mathlib.Data.Int.ModEq
 /-!
 # Lemmas about the hash gadgets: frame/count, values, simulation by the plain specification
 -/
+/-- `decide +kernel` for the closed Poseidon computations of `Props/C20.lean`.  When the kernel
+does NOT evaluate the proposition to `true` (a constant of the table changed), plain
+`decide +kernel` builds its error message by re-evaluating the `Decidable` instance with the
+elaborator's `whnf`, which on a 68-round permutation over 254-bit numbers does not finish in any
+reasonable memory (observed: 60 GB, OOM kill).  `first` drops that lazy message unevaluated, so a
+failing obligation fails in seconds with the message below.  Proof terms are the same. -/
+macro "kdecide" : tactic =>
+  `(tactic| first
+    | decide +kernel
+    | fail "kdecide: the kernel does not evaluate this closed proposition to `true`")
+
 namespace Pysnark.Hash
 open Pysnark Pysnark.Gen
 
